@@ -169,45 +169,56 @@ def opsOf (autoOps : List Op) (kw : List (Op × Handler)) : List Op :=
 
 /-- the handler `register` stores for `op`: the keyword argument, else the handler already
     registered for the type, else the auto-discovered one -/
-def pickHandler (H : Hier) (r : Reg) (t : Ty) (kw : List (Op × Handler)) (op : Op) : Handler :=
+def pickHandler (H : Hier) (typeMap : List (Op × List (Ty × Handler))) (autoMap : List (Op × String))
+    (t : Ty) (kw : List (Op × Handler)) (op : Op) : Handler :=
   match odGet op kw with
   | some h => h
   | none =>
-    match odGet t (r.map op) with
+    match odGet t ((odGet op typeMap).getD []) with
     | some h => h
     | none =>
-      match odGet op r.autoMap with
+      match odGet op autoMap with
       | some f => H.auto f t
       | none => none     -- unreachable: op comes from kwargs or from `_op_auto_map`
 
+/-- first loop of `register`: `new_op_map` (reads the maps as they are on entry) -/
+def newOpMap (H : Hier) (typeMap : List (Op × List (Ty × Handler))) (autoMap : List (Op × String))
+    (t : Ty) (kw : List (Op × Handler)) : List (Op × Handler) :=
+  (opsOf (autoMap.map (·.1)) kw).map (fun op => (op, pickHandler H typeMap autoMap t kw op))
+
+/-- second loop of `register`: `self._op_type_map[op_name][target_type] = handler` -/
+def setHandlers (typeMap : List (Op × List (Ty × Handler))) (t : Ty) (newMap : List (Op × Handler)) :
+    List (Op × List (Ty × Handler)) :=
+  newMap.foldl (fun tm p => odSet p.1 (odSet t p.2 ((odGet p.1 tm).getD [])) tm) typeMap
+
 /-- `TargetRegistry.register(target_type, exact=exact, **kw)` -/
 def register (H : Hier) (r : Reg) (t : Ty) (exact : Bool) (kw : List (Op × Handler)) : Reg :=
-  let ops := opsOf (r.autoMap.map (·.1)) kw
-  -- first loop: `setdefault`, choose the handler (reads the maps as they were on entry)
-  let newMap : List (Op × Handler) := ops.map (fun op => (op, pickHandler H r t kw op))
-  -- second loop: self._op_type_map[op_name][target_type] = handler
-  let tm := newMap.foldl (fun tm (p : Op × Handler) =>
-      odSet p.1 (odSet t p.2 ((odGet p.1 tm).getD [])) tm) r.typeMap
+  let newMap := newOpMap H r.typeMap r.autoMap t kw
   -- if not exact: for op_name in new_op_map: self._register_fuzzy_type(op_name, target_type)
   let tt := if exact then r.typeTree else
-    newMap.foldl (fun tt (p : Op × Handler) =>
-      odSet p.1 (regFuzzy H t ((odGet p.1 tt).getD .nil)) tt) r.typeTree
-  { r with typeMap := tm, typeTree := tt, cache := [] }
+    newMap.foldl (fun tt p => odSet p.1 (regFuzzy H t ((odGet p.1 tt).getD .nil)) tt) r.typeTree
+  { r with typeMap := setHandlers r.typeMap t newMap, typeTree := tt, cache := [] }
 
 /-- every type that is a key of some per-op map (`known_types`, as a duplicate-free list in
     first-occurrence order; Python builds a *set* of them) -/
-def Reg.knownTypes (r : Reg) : List Ty :=
-  (r.typeMap.flatMap (fun p => p.2.map (·.1))).eraseDups
+def knownTypesOf (typeMap : List (Op × List (Ty × Handler))) : List Ty :=
+  (typeMap.flatMap (fun p => p.2.map (·.1))).eraseDups
+
+def Reg.knownTypes (r : Reg) : List Ty := knownTypesOf r.typeMap
+
+/-- the loop of `register_op` that determines support for the previously known types -/
+def fillAuto (H : Hier) (auto : String) (order : List Ty) (tmap : List (Ty × Handler)) :
+    List (Ty × Handler) :=
+  order.foldl (fun m t =>
+      match odGet t m with
+      | some _ => m
+      | none => odSet t (H.auto auto t) m) tmap
 
 /-- `TargetRegistry.register_op(op_name, auto_func, exact)`; `order` is the iteration order of
     the set `known_types`.  The memo is *not* reset (as in the code). -/
 def registerOp (H : Hier) (r : Reg) (op : Op) (auto : String) (exact : Bool) (order : List Ty) : Reg :=
-  let tmap := order.foldl (fun m t =>
-      match odGet t m with
-      | some _ => m
-      | none => odSet t (H.auto auto t) m) (r.map op)
   let tree := if exact then r.tree op else order.foldl (fun tr t => regFuzzy H t tr) (r.tree op)
-  { r with typeMap := odSet op tmap r.typeMap,
+  { r with typeMap := odSet op (fillAuto H auto order (r.map op)) r.typeMap,
            typeTree := odSet op tree r.typeTree,
            autoMap := odSet op auto r.autoMap }
 
